@@ -35,7 +35,9 @@ Clause labels (sentence of the property each stands for):
                               (otherwise the property would hold vacuously)
 """
 import contextlib
+import os
 import re
+import traceback
 
 import gin
 
@@ -46,7 +48,9 @@ BOUNDS = ('14 callable shapes (function/class/method x plain, defaults, kw-only,
           'bound at root / a proper prefix / the full scope / only under a '
           'non-prefix scope x calls with every valid positional/keyword/omitted '
           'split, <= 2 extra *args, <= 2 **kwargs-only names (delta, omega), each '
-          'supplied place a value or gin.REQUIRED; 2 calls per case; sampled.')
+          'supplied place a value or gin.REQUIRED; bound values str/list/None; 2 calls '
+          'per case; fixed corners, then a seeded sample (quick 6000, thorough '
+          '200000 cases).')
 EXHAUSTIVE = {'quick': False, 'thorough': False}
 
 NAMES = ('alpha', 'beta', 'gamma')
@@ -423,7 +427,11 @@ def check(case):
   reject = _must_reject_registration(case)
   try:
     target, selector, name = _register(case, rec)
-  except ValueError as e:
+  except Exception as e:   # pylint: disable=broad-except
+    inner = traceback.extract_tb(e.__traceback__)[-1].filename
+    if os.path.dirname(os.path.realpath(inner)) != os.path.dirname(
+        os.path.realpath(gin.__file__)):
+      raise   # not raised by gin: a bug of this module, reported as a harness error
     if reject:
       return []
     return [{'clause': 'registration_accepted', 'expected': 'registered',
